@@ -49,7 +49,12 @@ fn field(line: &str, key: &str) -> Option<String> {
     None
 }
 
+// invocations of globally registered functions (reg_fn) are logged here and appended to the trace of the evaluation that made them
+static GLOBAL_LOG: Mutex<Vec<String>> = Mutex::new(Vec::new());
+thread_local! { static CUR_TRACE: std::cell::RefCell<Option<Arc<Mutex<Vec<String>>>>> = std::cell::RefCell::new(None); }
+
 fn ctx_with_trace(trace: Arc<Mutex<Vec<String>>>) -> Context {
+    CUR_TRACE.with(|c| *c.borrow_mut() = Some(trace.clone()));
     let mut ctx = Context::new();
     let mk = |name: &'static str, tr: Arc<Mutex<Vec<String>>>, ret: fn(Vec<Value>) -> Result<Value, String>| {
         let f: Arc<dyn Fn(Vec<Value>) -> expression_engine::Result<Value> + Send + Sync> = Arc::new(move |params: Vec<Value>| {
@@ -107,6 +112,15 @@ fn run_case(line: &str) -> String {
             let ctx = create_context!("x" => 5, "s" => "str", "b" => true, "l" => vec![Value::from(1), Value::from(2)], "f" => Arc::new(|p: Vec<Value>| Ok(Value::from(p.len() as i64 + 40))), "y" => 2.5);
             match execute(&s, ctx) { Ok(v) => format!("{{\"ok\":true,\"val\":{}}}", esc(&format!("{:?}", v))), Err(e) => format!("{{\"ok\":false,\"err\":{}}}", esc(&format!("{}", e))) }
         }
+        "macroctx2" => {
+            let ctx = create_context!(
+                "f" => Arc::new(|_p: Vec<Value>| Ok(Value::from("first"))), "f" => Arc::new(|_p: Vec<Value>| Ok(Value::from("second"))),
+                "v" => 1, "v" => 2,
+                "g" => Arc::new(|_p: Vec<Value>| Ok(Value::from("gfn"))), "g" => 7,
+                "h" => 8, "h" => Arc::new(|_p: Vec<Value>| Ok(Value::from("hfn"))),
+                "k" => Arc::new(|p: Vec<Value>| Ok(Value::from(p.len() as i64))), "z" => "last");
+            match execute(&s, ctx) { Ok(v) => format!("{{\"ok\":true,\"val\":{}}}", esc(&format!("{:?}", v))), Err(e) => format!("{{\"ok\":false,\"err\":{}}}", esc(&format!("{}", e))) }
+        }
         "conv" => conv(&s),
         _ => "{\"bad\":true}".to_string(),
     }
@@ -138,7 +152,12 @@ fn script(lines: &[String]) {
         let m = field(l, "m").unwrap_or_default();
         let s = field(l, "s").unwrap_or_default();
         let res = panic::catch_unwind(|| match m.as_str() {
-            "reg_fn" => { let tag = field(l, "tag").unwrap_or_default(); register_function(&s, Arc::new(move |_| Ok(Value::from(tag.as_str())))); "{\"ok\":true}".to_string() }
+            "reg_fn" => { let tag = field(l, "tag").unwrap_or_default(); let nm = s.clone();
+                register_function(&s, Arc::new(move |p: Vec<Value>| {
+                    let line = format!("G:{}({})", nm, p.iter().map(|x| format!("{:?}", x)).collect::<Vec<_>>().join(","));
+                    let cur = CUR_TRACE.with(|c| c.borrow().clone());
+                    match cur { Some(t) => t.lock().unwrap().push(line), None => GLOBAL_LOG.lock().unwrap().push(line) }
+                    Ok(Value::from(tag.as_str())) })); "{\"ok\":true}".to_string() }
             "reg_prefix" => { let tag = field(l, "tag").unwrap_or_default(); register_prefix_op(&s, Arc::new(move |v| Ok(Value::List(vec![Value::from(tag.as_str()), v])))); "{\"ok\":true}".to_string() }
             "reg_postfix" => { let tag = field(l, "tag").unwrap_or_default(); register_postfix_op(&s, Arc::new(move |v| Ok(Value::List(vec![Value::from(tag.as_str()), v])))); "{\"ok\":true}".to_string() }
             "reg_infix" => {
